@@ -175,6 +175,17 @@ def _run_capture(unit, rec, dreye):
                 rec.violation("a", dict(sig, dtype="int"), "integer-typed filters and signals: %s" % ("raised %r" % (exci,) if exci is not None else "result differs from the trapezoid oracle"), dict(cfg=cfg, pair="dense-int"),
                               observed=outi, expected=16.0 * exp, script=_script_capture(Fi, Si, kw["domain"] if dkind == "scalar" else dom, trapz))
             rec.outcome("dense-int/%s" % ("ok" if exci is None and _close(outi, 16.0 * exp, sc) else "bad"))
+            # 8-bit spectra (image data, detector counts up to 255): products and sums must not wrap around
+            F8 = (np.abs(np.round(F0 * 4)) * 12 + 3).astype(np.uint8)
+            S8 = (np.abs(np.round(S0 * 4)) * 9 + 100).astype(np.uint8)
+            rec.path()
+            out8, exc8 = _call(rec, dreye.calculate_capture, F8, S8, **kw)
+            exp8 = ref(F8.astype(float), S8.astype(float))
+            ok8 = exc8 is None and _close(out8, exp8, sc * 255 * 255)
+            rec.outcome("dense-uint8/%s" % ("ok" if ok8 else "bad"))
+            if not ok8:
+                rec.violation("a", dict(sig, dtype="uint8"), "8-bit integer filters and signals: %s" % ("raised %r" % (exc8,) if exc8 is not None else "result differs from the trapezoid oracle (silent wrap-around)"), dict(cfg=cfg, pair="dense-uint8"),
+                              observed=out8, expected=exp8, script=_script_capture(F8, S8, kw["domain"] if dkind == "scalar" else dom, trapz))
             # exact rational self-check of the oracle on one entry (oracle vs oracle: internal)
             # -- basis table --
             bad_a = bad_b = 0
@@ -282,7 +293,7 @@ def _run_integral(unit, rec, dreye):
                 cfg = ("integral", d, dkind, repr(dom), shape, axis, keep)
                 rec.state(cfg)
                 n = int(np.prod(shape))
-                arrs = [("dense", _dense(shape, 3))]
+                arrs = [("dense", _dense(shape, 3)), ("dense-uint8", (np.abs(np.round(_dense(shape, 3) * 4)) * 14 + 120).astype(np.uint8))]
                 for a in range(n):
                     e = np.zeros(n)
                     e[a] = 1.0
@@ -290,7 +301,7 @@ def _run_integral(unit, rec, dreye):
                 for name, arr in arrs:
                     rec.path()
                     out, exc = _call(rec, dreye.integral, arr, (dom if dkind == "scalar" else np.array(dom)), axis=axis, keepdims=keep)
-                    exp = np.tensordot(arr, w, axes=([axis % arr.ndim], [0]))
+                    exp = np.tensordot(arr.astype(float), w, axes=([axis % arr.ndim], [0]))
                     if keep:
                         exp = np.expand_dims(exp, axis % arr.ndim)
                     case = dict(cfg=cfg, arr=name)
